@@ -225,8 +225,30 @@ def run(ctx):
         for r in res.get("runs", []):
             for k in gc:
                 gc[k] += (r.get("gc") or {}).get(k, 0)
+    asan = {"runs": 0, "reports": 0}
+    if not ctx.quick:
+        # real frees on the AddressSanitizer build (quarantine off): reading a message must not touch a heap that was
+        # collected or torn down
+        ajobs = []
+        for i, net in enumerate(nets[:160] + nets[-len(KERNELS):]):
+            specs = [dict(s2) for s2 in run_specs(ctx.seed * 7 + i, True)]
+            for s2 in specs:
+                s2.pop("quarantine", None)
+            ajobs.append({"id": "asan%04d" % i, "files": {"main.abra": net["src"]}, "runs": specs, "_net": i})
+        jobs_clean = [{k: v for k, v in j.items() if k != "_net"} for j in ajobs]
+        ares, asan["runs"], asan["reports"] = vlib.asan_slice(ctx, jobs_clean, "asan-network")
+        for j in ajobs:
+            net = (nets[:160] + nets[-len(KERNELS):])[j["_net"]]
+            res = ares.get(j["id"], {})
+            if res.get("compile", {}).get("ok") and "crash" not in res:
+                res["_specs"] = j["runs"]
+                for cls, what in judge_net(net, res):
+                    if cls.startswith("history") or cls == "content":
+                        sig = "%s asan-build %s %s" % (PROP, net.get("kernel") or vlib.hhex(net["src"])[:10], cls)
+                        ctx.direct.append((sig, what + "\n--- program ---\n" + net["src"], dict(jobs_clean[ajobs.index(j)], asan=True)))
     ctx.coverage(
-        evaluations=evals,
+        asan_build=asan,
+        evaluations=evals + asan["runs"],
         distinct_nontrivial=len(distinct),
         rule="evaluation = one execution of a network under one (budget plan, collection plan) with the quarantine monitor on; "
              "distinct = networks (and named kernels) with at least one completed run whose printed history was checked; "
